@@ -145,6 +145,7 @@ void task_group_context_impl::bind_to_impl(d1::task_group_context& ctx, thread_d
             // Only ever set the request: the context may have been cancelled before its first use
             ctx.my_cancellation_requested.store(1, std::memory_order_relaxed);
         }
+        __TBB_VERIF_POINT(vp_ctx_bind_speculative, &ctx, 0);
         register_with(ctx, td); // Issues full fence
 
         // The may_have_children flag of the parent was published with a relaxed store. A thread cancelling
@@ -158,6 +159,7 @@ void task_group_context_impl::bind_to_impl(d1::task_group_context& ctx, thread_d
         // full fence guarantees that the parent had correct state during speculative
         // propagation before the fence. Otherwise the propagation from parent is
         // repeated under the lock.
+        __TBB_VERIF_POINT(vp_ctx_bind_registered, &ctx, local_count_snapshot != the_context_state_propagation_epoch.load(std::memory_order_relaxed));
         if (local_count_snapshot != the_context_state_propagation_epoch.load(std::memory_order_relaxed)) {
             // Another thread may be propagating state change right now. So resort to lock.
             context_state_propagation_mutex_type::scoped_lock lock(the_context_state_propagation_mutex);
@@ -248,6 +250,7 @@ bool task_group_context_impl::cancel_group_execution(d1::task_group_context& ctx
         // not missing out on any cancellation still being propagated, and a context cannot be uncanceled.)
         return false;
     }
+    __TBB_VERIF_POINT(vp_ctx_cancel_enter, &ctx, 0);
     governor::get_thread_data()->my_arena->my_threading_control->propagate_task_group_state(&d1::task_group_context::my_cancellation_requested, ctx, uint32_t(1));
     return true;
 }
